@@ -38,6 +38,8 @@ NODE_MENUS = (
     ("HNodeBag", "HNode"),
     ("HNodeNo",),
     ("HNodeNo", "HNodeBag"),
+    ("HNodeInst",),
+    ("HNodeInst", "HNode"),
 )
 LIGHT_MENUS = (
     ("HLight",),
@@ -189,6 +191,8 @@ def gen_cfg(rng, prop, tier, allow_big=True):
         cfg["observe_hooks"] = True  # hooks that look at the parent's children while the update is in flight
     if prop in ("C01", "C02", "C04", "C16", "C18") and rng.random() < 0.3:
         cfg["hook_reads"] = rng.sample(("size", "height", "path", "root", "children", "depth", "leaves", "siblings", "descendants"), rng.randint(1, 3))
+    if rng.random() < 0.25:
+        cfg["hook_ret"] = rng.choice((False, 0, True, "veto", 1))
     if big:
         # recursive attributes (size, height, descendants) read from inside a hook need a stack proportional
         # to the depth; that is a limit of Python/anytree, not a property
@@ -327,12 +331,16 @@ def gen_op(rng, model, cfg, step):
         op = {"op": "parent", "n": n, "p": p}
     elif kind == "children":
         n = rng.randrange(n_nodes)
+        if cfg.get("big") and rng.random() < 0.6:
+            n = max(range(n_nodes), key=lambda i: len(model.children[i]))  # the widest node
         xs, cont, role = gen_children_seq(rng, model, n, allow_nn)
         op = {"op": "children", "n": n, "xs": xs, "c": cont}
     elif kind == "del":
         # prefer nodes that have children
         cands = [i for i in range(n_nodes) if model.children[i]]
         n = rng.choice(cands) if cands and rng.random() < 0.8 else rng.randrange(n_nodes)
+        if cfg.get("big") and rng.random() < 0.5:
+            n = max(range(n_nodes), key=lambda i: len(model.children[i]))
         op = {"op": "del", "n": n}
     else:
         cls = rng.choice(cfg["menu"])
@@ -357,7 +365,7 @@ def gen_op(rng, model, cfg, step):
             op["c"] = wchoice(rng, (("list", 5), ("tuple", 2), ("gen", 2)))
         elif r < 0.55:
             op["xs"] = {"noniter": rng.choice(("int", "none", "zero"))}
-        if cls in ("HNode", "HNodeEq", "HNodeBag", "HNodeNo", "HAny", "HMix", "HSym") and rng.random() < 0.3:
+        if cls in ("HNode", "HNodeEq", "HNodeBag", "HNodeNo", "HNodeInst", "HAny", "HMix", "HSym") and rng.random() < 0.3:
             op["attrs"] = {"foo": step}
     prof = cfg["profile"]
     if cfg["prop"] == "C02" and op["op"] == "parent" and n_nodes > 2 and rng.random() < 0.06:
@@ -690,6 +698,7 @@ def c16_check(pre, post, log, fired, exp, status, observe):
 def build_world(cfg, world=None):
     world = world or World(observe_hooks=cfg.get("observe_hooks", False))
     world.hook_reads = tuple(cfg.get("hook_reads") or ())
+    world.hook_ret = cfg.get("hook_ret")
     model = ForestModel()
     for i, cls in enumerate(cfg["classes"]):
         t = cfg["targets"][i]
